@@ -2,6 +2,7 @@
 
 from __future__ import annotations
 
+import copy
 import json
 import math
 import os
@@ -63,7 +64,42 @@ def main():
     nres = dict(zip(need_norm, lib.run_impl("c16_impl.py", {"cases": [fl[i] for i in need_norm], "phase": "safe_norm"}, timeout=3000)["results"])) if need_norm else {}
     qres = dict(zip(need_qr, lib.run_impl("c16_impl.py", {"cases": [fl[i] for i in need_qr], "phase": "exact_qr"}, timeout=3000)["results"])) if need_qr else {}
     tres = dict(zip(need_triu, lib.run_impl("c16_impl.py", {"cases": [fl[i] for i in need_triu], "phase": "loss_triu"}, timeout=3000)["results"])) if need_triu else {}
+    # Exact-QR discriminator not applicable (jnp.linalg.qr's derivative is NaN at a singular factor: exactly-known initial
+    # coefficients, undamped observations): re-run the comparison on the REGULARISED NEIGHBOUR of the case (zero initial standard
+    # deviations -> 2^-10, zero damping -> 2^-10).  If the same quantity is wrong there too and the exact QR derivative repairs it,
+    # the mismatch is attributed to the qr_r rule; otherwise it stays a violation.
+    need_nb = []
+    for i in need_qr:
+        q_ = qres.get(i)
+        if q_ is None or "error" in q_ or any(not math.isfinite(x) for qn in q_["jvp"] for x in q_["jvp"][qn]):
+            need_nb.append(i)
+    nb_plain, nb_qr = {}, {}
+    if need_nb:
+        nbc = []
+        for i in need_nb:
+            c2 = copy.deepcopy(cases[i])
+            eps = Fr(1, 1024)
+            c2["std"] = [(x if x != 0 else eps) for x in c2["std"]] if c2["kind"] == "iso" else [[(x if x != 0 else eps) for x in row] for row in c2["std"]]
+            if c2["init_mode"] == "exact":
+                c2["init_mode"] = "inexact"
+            if c2["damp"] == 0:
+                c2["damp"] = eps
+            nbc.append(gen.floatable(c2))
+        nb_plain = dict(zip(need_nb, lib.run_impl("c16_impl.py", {"cases": nbc, "phase": "plain"}, timeout=3000)["results"]))
+        nb_qr = dict(zip(need_nb, lib.run_impl("c16_impl.py", {"cases": nbc, "phase": "exact_qr"}, timeout=3000)["results"]))
+
+    def neighbour_explains(i, qn):
+        a, b = nb_plain.get(i), nb_qr.get(i)
+        if a is None or b is None or "error" in a or "error" in b:
+            return False
+        jv2, fd2, ex2 = a["jvp"][qn], a["fd"][qn], b["jvp"][qn]
+        sc2 = max([abs(x) for x in fd2 if math.isfinite(x)] + [1e-30])
+        if not all(math.isfinite(x) for x in jv2 + ex2):
+            return False
+        return (not close(jv2, fd2, sc2, RT)) and close(ex2, fd2, sc2, RT)
+
     nf5 = 0
+    nf5_nb = 0
     for i, c in enumerate(cases):
         r = ires[i]
         jc = gen.jsonable(c)
@@ -126,6 +162,9 @@ def main():
                 idx_n = [k for k in range(len(ex)) if not math.isfinite(ex[k])]
                 explained = bool(idx_f) and close([ex[k] for k in idx_f], [fd[k] for k in idx_f], scale, RT) \
                     and close([jv[k] for k in idx_n], [fd[k] for k in idx_n], scale, RT)
+            if not explained and neighbour_explains(i, qn):
+                explained = True
+                nf5_nb += 1
             if explained:
                 nf5 += 1
                 ck.report("C16.qr_r-custom-jvp",
@@ -136,14 +175,14 @@ def main():
                           f"{cfgs}: AD derivative of {qn} w.r.t. {c['param']} differs from the directional derivative "
                           f"(max abs diff {worst:.3g}, scale {scale:.3g}); not explained by the qr_r rule",
                           {"case": jc, "quantity": qn, "jvp": jv, "fd": fd, "jvp_exact_qr": ex})
-    ck.hist["explained_by_qr_r_rule"] = {"n": nf5}
+    ck.hist["explained_by_qr_r_rule"] = {"n": nf5, "of_which_through_the_regularised_neighbour(singular factor)": nf5_nb}
     if not pr["ok"] and not ck.violations:
         ck.report("C16.proof", f"proof obligations no longer check: {pr['errors']}",
                   {"broken": pr.get("failed_at", "Props/C16.v"), "errors": pr["errors"]}, nofail=True)
     ck.finish(rule="fixed-grid solves (3 factorisations x filter/fixed-interval smoother x TS0/TS1 x none/MLE) with a scalar parameter entering the vector "
               "field, the initial value, the prior base scale or the observation noise; jax.jvp vs jax.jacrev (1e-8) vs 4th-order central differences (2e-5) "
               "for means, standard deviations, output scales and the marginal-likelihood loss; mismatches are re-evaluated with an exact QR derivative to "
-              "separate the known qr_r finding; non-trivial: all; distinct by full input")
+              "separate the known qr_r finding (at singular factors, where that derivative is NaN, on the regularised neighbour of the case); non-trivial: all; distinct by full input")
 
 
 if __name__ == "__main__":
